@@ -90,6 +90,24 @@ func (b *WriteBuffer) Drain() []RecordBatch {
 	return drained
 }
 
+// Requeue puts batches that a failed flush had drained back in front of anything
+// appended since, preserving offset order.
+func (b *WriteBuffer) Requeue(batches []RecordBatch) {
+	if len(batches) == 0 {
+		return
+	}
+	b.mu.Lock()
+	defer b.mu.Unlock()
+	merged := make([]RecordBatch, 0, len(batches)+len(b.batches))
+	merged = append(merged, batches...)
+	merged = append(merged, b.batches...)
+	b.batches = merged
+	for _, batch := range batches {
+		b.sizeBytes += len(batch.Bytes)
+		b.messageCount += int(batch.MessageCount)
+	}
+}
+
 // RecordsFrom returns the raw bytes of buffered batches needed to serve a read
 // starting at offset, concatenated, non-destructively. A batch is included when
 // its last offset (BaseOffset+LastOffsetDelta) is >= offset, i.e. the batch that
